@@ -623,7 +623,7 @@ def run_check(modname, pid, tier, meta):
             clauses_decided_by_solver=sum(r.get('clauses_solver', 0) for r in results),
             obligation_details={k: dict(paths=v['paths'], cubes=v['cubes'], outcomes=v['outcomes'],
                                  reachability=sorted(v['reach']), cpu_s=round(v['wall_s'], 2),
-                                 descr=[o.descr for o in obls if o.name == k][0])
+                                 descr=([o.descr for o in obls if o.name == k] or ['-'])[0])
                          for k, v in per_obl.items()},
             queries=dict(feasibility=stats.get('feas_queries', 0), property=stats.get('prop_queries', 0),
                          total=stats.get('solver_calls', 0), folded_by_facts=stats.get('folded', 0),
